@@ -8,7 +8,7 @@
  * smallest shape): the element names, the number/form of the attributes, the text lengths, which elements the program
  * skips.  What is SYMBOLIC (decided by the SAT back end for every value at once): every text byte (any value but '<'),
  * every attribute name/value byte (any value that is not markup), the preamble content, whether a non-skipped element
- * is read as body or descended into, the max_depth option.
+ * is read as body or descended into.
  *
  * The generator records, per element, where its name, attributes and body lie (the "generating tree").  The callback
  * compares what the parser reports with that tree at the moment of the report:
@@ -29,9 +29,8 @@
  * Rejection harness: the same generator with a defect switched on - one closing tag left out, or a max_depth option below
  * what the program descends to (11 attributes: shape 3); aws_xml_parse must then return AWS_OP_ERR.
  * Environment stubs: malloc allocator, error slot, no logger; aws_fatal_assert = assert(0).
- * memchr (libc, ASSUMED; CBMC has no model of it): on the document it is answered from "next occurrence" tables that are
- * computed once per document from its bytes; harness h_memchr_model checks the tables against the reference loop for
- * every document content, offset, length and each of the four bytes the parser searches for ('<', '>', ' ', '='). */
+ * memchr (libc, ASSUMED; CBMC has no model of it): reference loop that skips the comparison of a generator byte with a
+ * byte it was assumed not to be; harness h_memchr_model checks it against the plain loop for every content. */
 #include "contracts/xml_parser.h" /* only for the ghost names that overlay/xml_parser.loops, byte_buf.loops mention */
 #include <stdlib.h>
 
@@ -70,11 +69,8 @@ static uint8_t r_doc[DOCMAX];
 static size_t r_len;
 /* bit ch of r_excl[i]: byte i is a free byte of the generator that was ASSUMED not to be the searched byte ch */
 static uint8_t r_excl[DOCMAX];
-/* next occurrence tables: r_next[ch][i] = smallest j >= i with r_doc[j] == byte ch, or DOCMAX when there is none below r_len */
 enum { CH_LT, CH_GT, CH_SP, CH_EQ, N_CH };
 static const uint8_t CH_BYTE[N_CH] = {'<', '>', ' ', '='};
-static uint8_t r_next[N_CH][DOCMAX + 1];
-static bool r_tables;
 
 void aws_raise_error_private(int err) { g_last_error = err; g_raise_count++; }
 int aws_last_error(void) { return g_last_error; }
@@ -95,39 +91,23 @@ int aws_mem_realloc(struct aws_allocator *a, void **p, size_t o, size_t n) {
 }
 void aws_secure_zero(void *p, size_t n) { memset(p, 0, n); }
 
-static void *memchr_reference(const void *s, int c, size_t n) {
+/* ASSUMED (libc): memchr = its reference loop.  On the document the comparison of a FREE byte with a byte it was assumed
+ * not to be (r_excl, see put_free) is skipped: symex cannot use the assumption, and a symbolic outcome there would make
+ * every later pointer of the parser symbolic.  put_free asserts that the declaration is true of the byte. */
+void *memchr(const void *s, int c, size_t n) {
     const uint8_t *p = (const uint8_t *)s;
+    int ch = (uint8_t)c == '<' ? CH_LT : (uint8_t)c == '>' ? CH_GT : (uint8_t)c == ' ' ? CH_SP : (uint8_t)c == '=' ? CH_EQ : N_CH;
+    bool in_doc = __CPROVER_same_object(s, r_doc);
+    size_t off = __CPROVER_POINTER_OFFSET(s);
     for (size_t i = 0; i < n; ++i) {
+        if (in_doc && ch != N_CH && off + i < DOCMAX && ((r_excl[off + i] >> ch) & 1)) {
+            continue; /* this byte is known not to be c */
+        }
         if (p[i] == (uint8_t)c) {
             return (void *)(p + i);
         }
     }
     return NULL;
-}
-static void *memchr_tables(const void *s, int c, size_t n) {
-    size_t off = __CPROVER_POINTER_OFFSET(s);
-    __CPROVER_assert(off <= r_len && n <= r_len - off, "memchr model: the searched range lies inside the document");
-    int ch = (uint8_t)c == '<' ? CH_LT : (uint8_t)c == '>' ? CH_GT : (uint8_t)c == ' ' ? CH_SP : CH_EQ;
-    size_t q = r_next[ch][off];
-    return q - off < n ? (void *)(r_doc + q) : NULL;
-}
-void *memchr(const void *s, int c, size_t n) {
-    bool known = (uint8_t)c == '<' || (uint8_t)c == '>' || (uint8_t)c == ' ' || (uint8_t)c == '=';
-    if (r_tables && known && __CPROVER_same_object(s, r_doc)) {
-        return memchr_tables(s, c, n);
-    }
-    __CPROVER_assert(!r_tables, "memchr model: every search of the parser is one of '<' '>' ' ' '=' inside the document");
-    return memchr_reference(s, c, n);
-}
-static void build_tables(void) {
-    for (int ch = 0; ch < N_CH; ++ch) {
-        r_next[ch][DOCMAX] = DOCMAX;
-        for (size_t i = DOCMAX; i-- > 0;) {
-            bool is_ch = i < r_len && !((r_excl[i] >> ch) & 1) && r_doc[i] == CH_BYTE[ch];
-            r_next[ch][i] = is_ch ? (uint8_t)i : r_next[ch][i + 1];
-        }
-    }
-    r_tables = true;
 }
 
 uint8_t g_va, g_vb; /* ghosts named by loop contracts of other modules' overlays */
@@ -146,7 +126,8 @@ struct el {
     size_t nattr, ak[ATTR_CAP], av[ATTR_CAP], avlen[ATTR_CAP];
     size_t body_at, body_end;
     bool skip;              /* concrete part of the program */
-    int act;                /* skip, or symbolic: body / descend */
+    bool body;              /* symbolic part: a non-skipped element is read as body, else descended into */
+    int act;                /* the resulting action (for expectations and canaries) */
     bool reached;           /* every ancestor is descended into */
     int pos;                /* number of reached elements before this one in document order */
 };
@@ -169,7 +150,7 @@ static void put(uint8_t c) {
 static void put_free(uint8_t c, uint8_t excl) {
     __CPROVER_assert(!((excl & EX(CH_LT)) && c == '<') && !((excl & EX(CH_GT)) && c == '>') && !((excl & EX(CH_SP)) && c == ' ') &&
                          !((excl & EX(CH_EQ)) && c == '='),
-                     "memchr tables: a free byte is none of the searched bytes it was declared not to be");
+                     "memchr model: a free byte is none of the searched bytes it was declared not to be");
     put(c);
     r_excl[r_len - 1] = excl;
 }
@@ -196,7 +177,8 @@ static void put_open(int i, int nm, int depth, int parent, bool skip, int nattr,
     e->depth = depth;
     e->parent = parent;
     e->skip = skip;
-    e->act = skip ? ACT_SKIP : (nondet_bool() ? ACT_BODY : ACT_DESCEND);
+    e->body = nondet_bool();
+    e->act = skip ? ACT_SKIP : (e->body ? ACT_BODY : ACT_DESCEND);
     put('<');
     e->name_at = r_len;
     put_name(nm);
@@ -243,7 +225,6 @@ static void put_preamble_statement(int kind) {
     put('>');
 }
 static void finish_generation(void) {
-    build_tables();
     /* which elements the program reaches, and as the how-manieth callback */
     r_nreach = 0;
     for (int i = 0; i < NUSED; ++i) {
@@ -289,7 +270,11 @@ static int visit(struct aws_xml_node *node, int depth) {
             }
         }
     }
-    if (e->act == ACT_BODY) {
+    /* two-way branch on ONE symbolic bit (a third, infeasible "neither" path would leave the parser state symbolic) */
+    if (e->skip) {
+        return AWS_OP_SUCCESS;
+    }
+    if (e->body) {
         struct aws_byte_cursor body;
         int rc = aws_xml_node_as_body(node, &body);
         if (r_check) {
@@ -298,13 +283,11 @@ static int visit(struct aws_xml_node *node, int depth) {
             __CPROVER_assert(body.ptr == r_doc + e->body_at, "body starts right behind the start tag");
         }
         return rc;
-    }
-    if (e->act == ACT_DESCEND) {
+    } else {
         int rc = aws_xml_node_traverse(node, on_node, (void *)(size_t)(depth + 1));
         if (r_check) __CPROVER_assert(rc == AWS_OP_SUCCESS, "traversal of a well-formed element succeeds");
         return rc;
     }
-    return AWS_OP_SUCCESS;
 }
 /* ONE callback function (so that the indirect calls of the parser have a single target for symex); the depth travels in
  * user_data.  The root's user_data comes back out of the parser's callback stack (heap): it is compared, not used. */
@@ -347,16 +330,20 @@ static int run_parse(size_t max_depth) {
 #    define NM0_LO 0
 #    define NM0_HI 2
 #endif
-#ifndef ATTR_PATS /* attribute form per element, base 3: e0 + 3 * e1 + 9 * e2 (AK_NONE / AK_PLAIN / AK_QUOTED) */
-#    define ATTR_PATS {0, 1 + 3 * 2 + 9 * 1, 2 + 3 * 0 + 9 * 2, 0 + 3 * 1 + 9 * 0}
+/* layout variants {attribute forms, text slots}: attribute form per element in base 3, e0 + 3 * e1 + 9 * e2 (AK_NONE /
+ * AK_PLAIN / AK_QUOTED); one text byte in slot s when bit s is set (5 slots) */
+#define AP(e0, e1, e2) ((e0) + 3 * (e1) + 9 * (e2))
+#ifndef VARIANTS
+#    ifdef VERIF_XML_THOROUGH /* every presence pattern of attributes x {no text, text everywhere, text in slots 1 and 3} */
+#        define VARIANTS {{AP(0,0,0), 0x00}, {AP(1,0,0), 0x00}, {AP(0,2,0), 0x00}, {AP(1,2,0), 0x00}, {AP(0,0,1), 0x00}, {AP(1,0,1), 0x00}, {AP(0,2,1), 0x00}, {AP(1,2,1), 0x00}, \
+                          {AP(0,0,0), 0x1f}, {AP(2,0,0), 0x1f}, {AP(0,1,0), 0x1f}, {AP(2,1,0), 0x1f}, {AP(0,0,2), 0x1f}, {AP(2,0,2), 0x1f}, {AP(0,1,2), 0x1f}, {AP(2,1,2), 0x1f}, \
+                          {AP(0,0,0), 0x0a}, {AP(1,0,0), 0x0a}, {AP(0,2,0), 0x0a}, {AP(1,2,0), 0x0a}, {AP(0,0,1), 0x0a}, {AP(1,0,1), 0x0a}, {AP(0,2,1), 0x0a}, {AP(1,2,1), 0x0a}}
+#    else /* quick: no attributes + text everywhere; attributes everywhere + no text */
+#        define VARIANTS {{AP(0,0,0), 0x1f}, {AP(1,2,1), 0x00}}
+#    endif
 #endif
-#ifndef TEXT_PATS /* one text byte in slot s when bit s is set (5 slots) */
-#    define TEXT_PATS {0x00, 0x1f, 0x0a, 0x15}
-#endif
-static const int ATTR_PAT[] = ATTR_PATS;
-static const int TEXT_PAT[] = TEXT_PATS;
-#define N_ATTR_PAT ((int)(sizeof(ATTR_PAT) / sizeof(ATTR_PAT[0])))
-#define N_TEXT_PAT ((int)(sizeof(TEXT_PAT) / sizeof(TEXT_PAT[0])))
+static const int VARIANT[][2] = VARIANTS;
+#define N_VARIANT ((int)(sizeof(VARIANT) / sizeof(VARIANT[0])))
 
 #if VERIF_XML_SHAPE == 1 || VERIF_XML_SHAPE == 2
 static void generate_tree(const int *nm, int apat, int tpat, int skipmask) {
@@ -364,7 +351,6 @@ static void generate_tree(const int *nm, int apat, int tpat, int skipmask) {
 #    define OPEN(i, depth, parent) put_open(i, nm[i], depth, parent, (skipmask >> (i)) & 1, kind[i][0] != AK_NONE, kind[i])
 #    define TEXT(s) put_text((tpat >> (s)) & 1)
     r_len = 0;
-    r_tables = false;
 #    if VERIF_XML_SHAPE == 1
     OPEN(0, 0, -1); TEXT(0);
     OPEN(1, 1, 0); TEXT(1); put_close(1); TEXT(2);
@@ -388,9 +374,9 @@ static bool redundant(int skipmask) {
 #    endif
 }
 
-static void accept_case(void) {
-    size_t max_depth = nondet_size_t();
-    __CPROVER_assume(max_depth == 0 || max_depth > NEL); /* default limit (20) or any limit the document stays below */
+/* max_depth is concrete (a symbolic limit makes "limit exceeded" a path of every traversal for symex, and the merged
+ * parser state symbolic): 0 = default limit (20), or the smallest limit the document stays below */
+static void accept_case(size_t max_depth) {
     int rc = run_parse(max_depth);
     __CPROVER_assert(rc == AWS_OP_SUCCESS, "well-formed document within the limits is accepted");
     __CPROVER_assert(r_seen == r_nreach, "every element the program reaches is reported (exactly once: count)");
@@ -416,13 +402,17 @@ void h_accept(void) {
     for (nm[0] = NM0_LO; nm[0] <= NM0_HI; ++nm[0])
         for (nm[1] = 0; nm[1] < 3; ++nm[1])
             for (nm[2] = 0; nm[2] < 3; ++nm[2])
-                for (int ap = 0; ap < N_ATTR_PAT; ++ap)
-                    for (int tp = 0; tp < N_TEXT_PAT; ++tp)
-                        for (int skipmask = 0; skipmask < 8; ++skipmask) {
-                            if (redundant(skipmask)) continue;
-                            generate_tree(nm, ATTR_PAT[ap], TEXT_PAT[tp], skipmask);
-                            accept_case();
+                for (int v = 0; v < N_VARIANT; ++v)
+                    for (int skipmask = 0; skipmask < 8; ++skipmask) {
+                        if (redundant(skipmask)) continue;
+                        generate_tree(nm, VARIANT[v][0], VARIANT[v][1], skipmask);
+                        accept_case(0);
+                        if (skipmask == 0) {
+                            generate_tree(nm, VARIANT[v][0], VARIANT[v][1], skipmask);
+                            accept_case(MAXDEPTH + 2);
+                            CANARY("accepted with the tightest depth limit");
                         }
+                    }
 }
 
 /* ---------------------------------------------------------------- rejection: a closing tag left out / depth limit exceeded */
@@ -431,6 +421,7 @@ static void reject_case(size_t max_depth) {
     __CPROVER_assert(rc == AWS_OP_ERR, "document without a closing tag / beyond the depth limit is rejected with an error");
     __CPROVER_assert(g_raise_count > 0 && g_last_error != 0, "an error code is registered");
 }
+/* programs of the rejection harness: everything read-or-descended (symbolic), or exactly the defective element skipped */
 void h_reject(void) {
     GHOST_RESET_COMMON();
     r_check = false;
@@ -438,34 +429,33 @@ void h_reject(void) {
     for (nm[0] = NM0_LO; nm[0] <= NM0_HI; ++nm[0])
         for (nm[1] = 0; nm[1] < 3; ++nm[1])
             for (nm[2] = 0; nm[2] < 3; ++nm[2])
-                for (int ap = 0; ap < N_ATTR_PAT; ++ap)
-                    for (int tp = 0; tp < N_TEXT_PAT; ++tp)
-                        for (int skipmask = 0; skipmask < 8; ++skipmask) {
-                            if (redundant(skipmask)) continue;
-                            /* (a) the closing tag of element d is missing; the program reaches element d */
-                            for (int d = 0; d < NUSED; ++d) {
-                                r_defect = DEFECT_NO_CLOSE;
-                                r_defect_el = d;
-                                generate_tree(nm, ATTR_PAT[ap], TEXT_PAT[tp], skipmask);
-                                if (r_el[d].reached) { /* symbolic: depends on body / descend of the ancestors */
-                                    reject_case(0);
-                                    if (d == 0) CANARY("root without closing tag rejected");
-                                    if (d == NUSED - 1 && r_el[d].act == ACT_DESCEND) CANARY("last element without closing tag, descended into, rejected");
-                                }
-                            }
-                            /* (b) max_depth = m: some reached element at depth >= m - 1 is descended into */
-                            for (size_t m = 1; m <= NEL; ++m) {
-                                r_defect = DEFECT_DEPTH;
-                                generate_tree(nm, ATTR_PAT[ap], TEXT_PAT[tp], skipmask);
-                                bool looked_at = false;
-                                for (int i = 0; i < NUSED; ++i)
-                                    if (r_el[i].reached && r_el[i].act == ACT_DESCEND && (size_t)r_el[i].depth + 1 >= m) looked_at = true;
-                                if (looked_at) {
-                                    reject_case(m);
-                                    if (m == MAXDEPTH + 1) CANARY("depth limit exceeded at the innermost element rejected");
-                                }
+                for (int v = 0; v < N_VARIANT; ++v) {
+                    /* (a) the closing tag of element d is missing; the program reaches element d */
+                    for (int d = 0; d < NUSED; ++d)
+                        for (int skip_d = 0; skip_d < 2; ++skip_d) {
+                            r_defect = DEFECT_NO_CLOSE;
+                            r_defect_el = d;
+                            generate_tree(nm, VARIANT[v][0], VARIANT[v][1], skip_d << d);
+                            if (r_el[d].reached) { /* symbolic: depends on body / descend of the ancestors */
+                                reject_case(0);
+                                if (d == 0) CANARY("root without closing tag rejected");
+                                if (d == NUSED - 1 && r_el[d].act == ACT_DESCEND) CANARY("last element without closing tag, descended into, rejected");
+                                if (d == NUSED - 1 && r_el[d].act == ACT_SKIP) CANARY("last element without closing tag, skipped, rejected");
                             }
                         }
+                    /* (b) max_depth = m: some reached element at depth >= m - 1 is descended into */
+                    for (size_t m = 1; m <= MAXDEPTH + 1; ++m) {
+                        r_defect = DEFECT_DEPTH;
+                        generate_tree(nm, VARIANT[v][0], VARIANT[v][1], 0);
+                        bool looked_at = false;
+                        for (int i = 0; i < NUSED; ++i)
+                            if (r_el[i].reached && r_el[i].act == ACT_DESCEND && (size_t)r_el[i].depth + 1 >= m) looked_at = true;
+                        if (looked_at) {
+                            reject_case(m);
+                            if (m == MAXDEPTH + 1) CANARY("depth limit exceeded at the innermost element rejected");
+                        }
+                    }
+                }
 }
 #endif
 
@@ -479,8 +469,8 @@ void h_attr_limit(void) {
         for (int n = 9; n <= 11; ++n)
             for (int skip1 = 0; skip1 < 2; ++skip1) {
                 r_len = 0;
-                r_tables = false;
-                put_open(0, 0, 0, -1, false, 0, kinds);
+                            put_open(0, 0, 0, -1, false, 0, kinds);
+                r_el[0].body = false;
                 r_el[0].act = ACT_DESCEND;
                 put_text(1);
                 put_open(1, nm1, 1, 0, skip1, n, kinds);
@@ -518,8 +508,7 @@ void h_preamble(void) {
                 for (int nm0 = 0; nm0 < 3; ++nm0)
                     for (int skip0 = 0; skip0 < 2; ++skip0) {
                         r_len = 0;
-                        r_tables = false;
-                        put_preamble_statement(p1);
+                                            put_preamble_statement(p1);
                         put_preamble_statement(p2);
                         put_text(lead);
                         put_open(0, nm0, 0, -1, skip0, (p1 + nm0) & 1, kinds);
@@ -549,8 +538,7 @@ void h_attrs(void) {
                     for (int t = 0; t < 2; ++t) {
                         int kinds[3] = {(q & 1) ? AK_QUOTED : AK_PLAIN, (q & 2) ? AK_QUOTED : AK_PLAIN, (q & 4) ? AK_QUOTED : AK_PLAIN};
                         r_len = 0;
-                        r_tables = false;
-                        put_open(0, nm0, 0, -1, skip0, n, kinds);
+                                            put_open(0, nm0, 0, -1, skip0, n, kinds);
                         put_text(t);
                         put_close(0);
                         finish_generation();
@@ -563,7 +551,16 @@ void h_attrs(void) {
 }
 #endif
 
-/* ---------------------------------------------------------------- the memchr tables against the reference loop */
+/* ---------------------------------------------------------------- memchr with exclusion knowledge against the plain loop */
+static void *memchr_plain(const void *s, int c, size_t n) {
+    const uint8_t *p = (const uint8_t *)s;
+    for (size_t i = 0; i < n; ++i) {
+        if (p[i] == (uint8_t)c) {
+            return (void *)(p + i);
+        }
+    }
+    return NULL;
+}
 void h_memchr_model(void) {
     r_len = nondet_size_t();
     __CPROVER_assume(r_len <= DOCMAX);
@@ -572,13 +569,11 @@ void h_memchr_model(void) {
         r_excl[i] = nondet_u8(); /* any declaration of excluded bytes that is true of the content */
         for (int ch = 0; ch < N_CH; ++ch) __CPROVER_assume(!((r_excl[i] >> ch) & 1) || r_doc[i] != CH_BYTE[ch]);
     }
-    build_tables();
     size_t off = nondet_size_t(), n = nondet_size_t();
     __CPROVER_assume(off <= r_len && n <= r_len - off);
-    int ch = nondet_int();
-    __CPROVER_assume(ch >= 0 && ch < N_CH);
-    void *want = memchr_reference(r_doc + off, CH_BYTE[ch], n);
-    void *got = memchr(r_doc + off, CH_BYTE[ch], n);
-    __CPROVER_assert(got == want, "table-driven memchr == reference loop (first occurrence or NULL)");
+    uint8_t c = nondet_u8();
+    void *want = memchr_plain(r_doc + off, c, n);
+    void *got = memchr(r_doc + off, c, n);
+    __CPROVER_assert(got == want, "memchr that skips excluded bytes == plain reference loop (first occurrence or NULL)");
     if (got) CANARY("found"); else CANARY("not found");
 }
